@@ -769,9 +769,18 @@ def ex_whist(c):
             op = dict(op, stop_resolved=(len(w.get()[0]) if op["stop"] == NONEINT else op["stop"]))
         if op["k"] == "interpolate_grid":
             pass
-        oc, _ = guarded(lambda: wcall(w, op))
+        oc, ret = guarded(lambda: wcall(w, op))
         after = snap(w)
-        s = {"op": o, "outcome": oc, "frame": after == before, "caller": caller_state()[:len(cbefore)] == cbefore, "orig_same": after[4:] == before[4:], "frx": [], "fry": []}
+        rv = []
+        if oc == "ok" and op["k"] == "len":
+            rv = [fx(ret)]
+        elif oc == "ok" and op["k"] == "to_2d_array":
+            rv = vec(np.asarray(ret, dtype=float).ravel()) if np.asarray(ret).ndim == 2 and np.asarray(ret).shape[1] == 2 else [[5, 0, 0]]
+        elif oc == "ok" and op["k"] in ("slice_index", "slice_value"):
+            rv = vec(ret[0]) + vec(ret[1])
+        elif oc == "ok" and op["k"] == "to_function":
+            rv = vec(ret)
+        s = {"op": o, "outcome": oc, "ret": rv, "frame": after == before, "caller": caller_state()[:len(cbefore)] == cbefore, "orig_same": after[4:] == before[4:], "frx": [], "fry": []}
         obs = guarded(lambda: wobs(w))[1]
         if obs is None:
             obs = {"x": [], "y": [], "rx": [], "ry": [], "ox": [], "oy": [], "kinds": "unobservable"}
